@@ -901,6 +901,19 @@ def native_table(ed, nv, cols, ending):
         shutil.rmtree(tmp, ignore_errors=True)
 
 
+def consumed_weights(d):
+    """the q-point weights every consumer inside the package derives from a read phonon input (classes of the phonon-contribution layer that define `q_weights`)"""
+    import types as _types
+    out = {}
+    ns = importlib.import_module("cij.core.phonon_contribution.nonshear")
+    for name, cls in vars(ns).items():
+        if isinstance(cls, type) and "q_weights" in vars(cls):
+            obj = cls.__new__(cls)
+            obj.calculator = _types.SimpleNamespace(qha_input=d)
+            out["nonshear.%s.q_weights" % name] = list(numpy.asarray(obj.q_weights, dtype=float).ravel())
+    return out
+
+
 def reader_hands_over_as_written():
     """[F] read_energy on hand-written phonon files (not produced by the package's writer): modes listed in branch order (NOT ascending, crossing between volumes), numbers in
     fixed and in exponent notation (weights of a dense mesh, energies relative to the minimum), an optional index after nothing -- every number is float(token) at its own place"""
@@ -920,13 +933,22 @@ def reader_hands_over_as_written():
             for v in range(nv):
                 modes[v][0][:3] = [0.0, 0.0, 0.0]
             coords = [(0.0, 0.0, 0.0), (0.25, -0.5, 0.125), (-0.375, 0.0, 0.5)]
+            cfmt = "%10.4f"
+            if style >= 2:
+                # a fine / shifted mesh: two distinct q-points whose coordinates agree to four decimals, with different weights, coordinates printed with six decimals
+                nq, cfmt = 4, "%10.6f"
+                coords = [(0.0, 0.0, 0.0), (0.25, -0.5, 0.12502), (-0.375, 0.0, 0.5), (0.25, -0.5, 0.12498)]
+                W = W + [W[1] * 3.0]
+                modes = [[[round(100.0 + 37.0 * ((7 * m + 3 * q + 5 * v * (m % 3)) % 11) + 0.01 * (m + 10 * q + 100 * v), 6) for m in range(npm)] for q in range(nq)] for v in range(nv)]
+                for v in range(nv):
+                    modes[v][0][:3] = [0.0, 0.0, 0.0]
             lines = ["hand-written", "", "  nv   nq   np   nm   na", "%4d %4d %4d %4d %4d" % (nv, nq, npm, 1, 2), ""]
             etok, wtok = [], []
             for v in range(nv):
                 etok.append(fmt_e % E[v])
                 lines.append("P= %12.6f V= %12.6f E= %s" % (0.0, V[v], etok[-1]))
                 for q in range(nq):
-                    lines.append(" ".join("%10.4f" % c for c in coords[q]))
+                    lines.append(" ".join(cfmt % c for c in coords[q]))
                     lines += ["%12.6f" % x for x in modes[v][q]]
             lines += ["", "weight"]
             for q in range(nq):
@@ -944,6 +966,19 @@ def reader_hands_over_as_written():
             got_w = [float(w) for _, w in d.weights]
             if got_w != [float(t) for t in wtok]:
                 return core.refuted("finite", "weights written %s are read as %s" % (wtok, got_w), witness_id="handwritten-weights:%d" % style, replay={"reproduced": True, "weights": wtok})
+            written = [tuple(float(cfmt % c) for c in coords[q]) for q in range(nq)]
+            got_c = [tuple(float(x) for x in c) for c, _ in d.weights]
+            if got_c != [tuple(float("%10.6f" % c) for c in coords[q]) for q in range(nq)] or any(
+                    [tuple(float(x) for x in qp.coord) for qp in vol.q_points] != written for vol in d.volumes):
+                return core.refuted("finite", "q-point coordinates written %s are read as %s (weight block) / %s (first volume block)" % (
+                    written, got_c, [tuple(float(x) for x in qp.coord) for qp in d.volumes[0].q_points]), witness_id="handwritten-coords:%d" % style,
+                    replay={"reproduced": True, "file": "\n".join(lines)[:900]})
+            # ... and the phonon-contribution layer and the QHA adapter weigh the q-points as listed, by position (two q-points that agree to four decimals stay two q-points)
+            consumed = consumed_weights(d)
+            for who, ws in consumed.items():
+                if [float(x) for x in ws] != [float(t) for t in wtok]:
+                    return core.refuted("finite", "%s weighs the q-points of a hand-written file with %s, listed %s (coordinates %s)" % (who, [float(x) for x in ws], wtok, written),
+                                        witness_id="handwritten-consumed-weights:%d" % style, replay={"reproduced": True, "file": "\n".join(lines)[:900], "consumer": who})
             for v in range(nv):
                 vol = d.volumes[v]
                 if float(vol.energy) != float(etok[v]) or float(vol.volume) != V[v]:
@@ -955,7 +990,7 @@ def reader_hands_over_as_written():
                             v, q, modes[v][q], [float(x) for x in vol.q_points[q].modes]), witness_id="handwritten-modes", replay={"reproduced": True, "listed": modes[v][q]})
     finally:
         shutil.rmtree(tmp, ignore_errors=True)
-    return core.proved("finite", "%d hand-written files (fixed / exponent / repr notation): weights, energies, volumes are float(token); modes in the listed (branch) order" % n)
+    return core.proved("finite", "%d hand-written files (fixed / exponent / repr notation): weights, energies, volumes, q-point coordinates (also two that agree to four decimals) are float(token); modes in the listed (branch) order; the phonon-contribution layer weighs by position" % n)
 
 
 def static_tables(s, ed, rnd, tmp):
